@@ -15,7 +15,7 @@
 //   R8  s.asyncGoroutineWg.Add(n) / .Done() / .Wait() -> vWgAdd(&s.asyncGoroutineWg, n) / vWgDone(..) / vWgWait(..)
 //   R9  (listener.go, session_manager.go) go func(){..}() -> vGo(func(){..}); go func(id int){..}(i) -> vGoInt(.., i)
 //   R10 (same files) time.NewTimer / time.NewTicker / time.Sleep -> vNewTimer / vNewTicker / vSleep (harness-controlled)
-//   R11 (same files) vYield("sel:<recv>.<fn>#k") before every select of checkHotRestart / background
+//   R11 (same files) vYield("sel:<recv>.<fn>#k") before every select of checkHotRestart / background; also Stream.readMore
 //   R12 (session_manager.go) newClientSession(..) -> vNewClientSession(..) (hook; the real function when no hook is set)
 //   R6  in Session.wakeUpPeer / Session.hotRestart / Session.send: s.writeEventData(..) is preceded by
 //       vYield("writeEvent")
@@ -124,7 +124,7 @@ func main() {
 					}
 				case *ast.SelectStmt:
 					// R11: a scheduling point before every select of the hot-restart checkers and the pool watchers
-					if isRestartFile && (fn == "checkHotRestart" || fn == "background") {
+					if (isRestartFile && (fn == "checkHotRestart" || fn == "background")) || (name == "stream.go" && fn == "readMore") {
 						edits = append(edits, edit{off(x.Pos()), off(x.Pos()), fmt.Sprintf("vYield(%s); ", quote(fmt.Sprintf("sel:%s.%s#%d", rn, fn, selN)))})
 						selN++
 					}
